@@ -431,6 +431,23 @@ def check_c17(case, r, fault_step=None):
         if si != errs[0] + 1:
             v.append(("loud", "C17:run_did_not_stop_at_failing_step:%s" % strat,
                       "error at step %d, step_i=%d" % (errs[0], si)))
+    # "a violated safety check is not silently ignored: the run stops at that step": every reported step but the last one
+    # of a run flagged as aborted keeps every connector within the limit the code itself holds for that step
+    for t in range(si):
+        if t == si - 1 and r["aborted"]:
+            continue
+        tr = r["trace"][t].get("post_strategy")
+        if not tr:
+            continue
+        for gid, g in tr["gcs"].items():
+            if g.get("cur_max_power") is None or t >= len(r["totalLoad"][gid]):
+                continue
+            load = r["totalLoad"][gid][t]
+            if load is not None and abs(load) > g["cur_max_power"] + EPS:
+                v.append(("loud", "C17:violated_safety_check_ignored:%s" % strat,
+                          "step %d %s: |%r| > %r and the run went on (step_i=%d, aborted=%s)"
+                          % (t, gid, load, g["cur_max_power"], si, r["aborted"])))
+                return v
     inj = [i for i, rec in enumerate(r["trace"]) if rec.get("injected")]
     if inj:
         if not r["aborted"] or si != inj[0] + 1:
